@@ -131,3 +131,17 @@ fn k1_leading_ows() { check("bytes= \t1-2", &[Form::Closed]); }
 #[kani::unwind(16)]
 #[kani::stub(<u64 as FromStr>::from_str, stub_from_str)]
 fn k1_two_from() { check("bytes=1-,2-3", &[Form::From, Form::Closed]); }
+
+/// Positions are `1*DIGIT`: a sign makes the header ungrammatical, so it is ignored (u64::from_str alone would accept `+1`).
+#[kani::proof]
+#[kani::unwind(16)]
+#[kani::stub(<u64 as FromStr>::from_str, stub_from_str)]
+fn k1_signed_positions() {
+    let len: u64 = kani::any();
+    let hv = HeaderValue::from_static("bytes=+1-2");
+    assert!(parse(Some(&hv), len) == ResolvedRanges::None);
+    let hv = HeaderValue::from_static("bytes=1-+2");
+    assert!(parse(Some(&hv), len) == ResolvedRanges::None);
+    let hv = HeaderValue::from_static("bytes=-+2");
+    assert!(parse(Some(&hv), len) == ResolvedRanges::None);
+}
